@@ -340,7 +340,6 @@ def value_fixed_grid(ctx, cfg, d, field, u0s, t0, hs, tag="grid"):
 def value_constraint_init(ctx, cfg, d, field, u0s, t0, hs):
     """solver_mle with `constraint_init`: the initial whitened residual enters the running mean as datum number one"""
     import jax.numpy as jnp
-    from probdiffeq import probdiffeq as pdq
 
     run_ = L.runner(cfg, field, constraint_init=True)
     prior = run_.prior(*run_.args(u0s, t0, cfg.base_scale))
@@ -391,7 +390,6 @@ def value_constraint_init(ctx, cfg, d, field, u0s, t0, hs):
 
 def value_adaptive(ctx, cfg, d, field, u0s, t0, save_at, tol, clip):
     import jax.numpy as jnp
-    from probdiffeq import probdiffeq as pdq
 
     run_ = L.runner(cfg, field)
     args = run_.args(u0s, t0, cfg.base_scale)
@@ -576,7 +574,6 @@ def equivariance_fixed(ctx, cfg, d, field, u0s, t0, hs, cs, probe=False):
 
 def equivariance_adaptive(ctx, cfg, d, field, u0s, t0, save_at, tol, clip, cs):
     import jax.numpy as jnp
-    from probdiffeq import probdiffeq as pdq
 
     run_ = L.runner(cfg, field)
     rep = run_.replica(clip)
@@ -680,7 +677,7 @@ def run(ctx):
     lap("corpus")
     rng = ctx.rng
     # (a) fixed grids
-    for it in range(ctx.n(6, 70)):
+    for it in range(ctx.n(6, 60)):
         L.release()
         cfg, d, order = random_config(ctx, it, ["filter", "fixedinterval"])
         field, u0s, t0 = make_problem(ctx, d, order)
@@ -697,7 +694,7 @@ def run(ctx):
         value_constraint_init(ctx, cfg, d, field, u0s, t0, hs)
     lap("value constraint_init")
     # (b) adaptive
-    for it in range(ctx.n(3, 24)):
+    for it in range(ctx.n(3, 20)):
         L.release()
         cfg, d, order = random_config(ctx, it, ["filter", "fixedpoint"], qmax=4)
         cfg = dataclasses.replace(cfg, solver=gen.pick(rng, ["mle", "mle_nocorr", "dynamic", "solver"], [3, 2, 1, 1]))
@@ -710,7 +707,7 @@ def run(ctx):
         value_adaptive(ctx, cfg, d, field, u0s, t0, save_at, tol, clip=bool(rng.random() < 0.5))
     lap("value adaptive")
     # (c) equivariance
-    for it in range(ctx.n(8, 100)):
+    for it in range(ctx.n(8, 90)):
         L.release()
         cfg, d, order = random_config(ctx, it, ["filter", "fixedinterval"], damp0=True, exact=True, qmax=6)
         field, u0s, t0 = make_problem(ctx, d, order, state_dependent=True)
@@ -719,7 +716,7 @@ def run(ctx):
         count_cfg(ctx, cfg, "equivariance")
         equivariance_fixed(ctx, cfg, d, field, u0s, t0, hs, [random_c(rng) for _ in range(ctx.n(2, 3))])
     lap("equivariance fixed grid")
-    for it in range(ctx.n(2, 20)):
+    for it in range(ctx.n(2, 16)):
         L.release()
         cfg, d, order = random_config(ctx, it, ["filter", "fixedpoint"], damp0=True, exact=True, qmax=4)
         field, u0s, t0 = make_problem(ctx, d, order, kind="linear")
